@@ -3,8 +3,7 @@
   match_compile.rs, match_anchor.rs, binding_analysis.rs `extract_output_var_kinds`, ast_walk.rs
   `extract_predicates`, projection_compile.rs `compile_projection_aggregation`, return_with.rs.
   Quirks are kept (anonymous-id allocation order, WHERE equalities pushed down as extra filters + IndexSeek,
-  property maps of ANONYMOUS relationships dropped, DISTINCT placed after SKIP/LIMIT … whatever the source
-  does).  `BTreeMap`s are key-sorted association lists.
+  property maps of ANONYMOUS relationships dropped … whatever the source does).  `BTreeMap`s are key-sorted association lists.
 -/
 import Nervus.Model.QPlan
 namespace Nervus.Cy.Compile
@@ -236,7 +235,10 @@ def compileMatch (input : Option Plan) (pats : List PathPat) (preds : Preds) (s 
     -- `first_node_alias`: an anonymous first node consumes an id here and another one in the chain
     let (first, s1) := match p.start.var with | some v => (v, s) | none => genName s
     s := s1
-    if boundAsNode known first || usesOuter p known then
+    -- `mentions_bound_node` (fix 0536246): a bound node variable anywhere in the pattern joins it
+    let mentionsBound := (p.start :: p.steps.map (·.2)).any fun np =>
+      match np.var with | some v => boundAsNode known v | none => false
+    if boundAsNode known first || usesOuter p known || mentionsBound then
       let (pl, s2) := compileChain plan p preds known s
       plan := some pl; s := s2
     else
@@ -359,6 +361,8 @@ def compileProj (input : Plan) (p : Proj) (wher : Option Expr) : Except Err Plan
     plan := .filter plan w
     if !pass.isEmpty then plan := .project plan (cols.map fun c => (c, .var c))
   | none => pure ()
+  -- DISTINCT applies to the projected rows, before ORDER BY / SKIP / LIMIT (fix ceade13)
+  if p.distinct then plan := .distinct plan
   if !p.orderBy.isEmpty then
     let bindings := p.items.map fun it => (itemExprOf it.expr, it.alias)
     let items := p.orderBy.map fun (e, asc) => (rewriteOrder bindings e, asc)
@@ -376,7 +380,6 @@ def compileProj (input : Plan) (p : Proj) (wher : Option Expr) : Except Err Plan
   match p.limit with
   | some n => validateWindow n; plan := .limit plan n
   | none => pure ()
-  if p.distinct then plan := .distinct plan
   return plan
 
 /-! ### the clause loop -/
